@@ -33,7 +33,8 @@ RULE = ("(1) chain of 1-4 generated command segments x joiners x enclosing Pytho
 WORDS = ["a", "b", "x1", "-l", "-a", "--flag", "--k=v", "k=v", "./p", "/x/y", "a.py", "1", "2.5", "a,b", "a:b", "-", "--", "+x", "%s",
          "*.zz", "n?pe", "[q]z"]
 CMDS = ["t", "ok", "fail", "emit"]
-HANG_S = 20
+HANG_S = 60          # equivalence part: wall clock (children are involved)
+PARSE_CPU_S = 60     # termination part: CPU seconds of this process (robust against a loaded machine)
 
 _state = {}
 
@@ -57,6 +58,7 @@ def _setup(scratch):
     _state.update(session=session, cwd=cwd, scratch=scratch,
                   open={e["id"] for e in common.load_known(PROP) if e.get("status") == "open"})
     signal.signal(signal.SIGALRM, _alarm)
+    signal.signal(signal.SIGVTALRM, _alarm)
     return _state
 
 
@@ -302,7 +304,7 @@ def shape_findings(meta):
         out.append("C03-F2")
     if joins and any(_py_parsable_dollar(sg) for sg in segs):
         out.append("C03-F6")
-    if joins and any("," in w and not w.startswith(("'", '"', "@", "$")) for s in segs for w in s.replace("\\\n", " ").split(" ")):
+    if any("," in w and not w.startswith(("'", '"', "@", "$")) for s in segs for w in s.replace("\\\n", " ").split(" ")):
         out.append("C03-F5")
     if cont and "semicolon" in ctx:
         out.append("C03-F3")
@@ -422,14 +424,14 @@ def parse_only(text):
     from vlib import session
 
     ex = session.get_execer()
-    signal.setitimer(signal.ITIMER_REAL, HANG_S, 2.0)
+    signal.setitimer(signal.ITIMER_VIRTUAL, PARSE_CPU_S, 2.0)
     try:
         try:
             ex.parse(text, ctx=set())
         except SyntaxError:
             return None
         except _Timeout:
-            return ("hang", "Execer.parse did not return within %d s" % HANG_S)
+            return ("hang", "Execer.parse did not return within %d CPU-seconds" % PARSE_CPU_S)
         except RecursionError:
             return ("internal:RecursionError", "RecursionError")
         except BaseException as e:  # noqa: BLE001
@@ -438,13 +440,15 @@ def parse_only(text):
             where = "%s:%s" % (os.path.basename(frames[-1].filename), frames[-1].name) if frames else "?"
             return ("internal:%s@%s" % (type(e).__name__, where), "%s: %s at %s" % (type(e).__name__, str(e)[:150], where))
     finally:
-        signal.setitimer(signal.ITIMER_REAL, 0)
+        signal.setitimer(signal.ITIMER_VIRTUAL, 0)
     return None
 
 
 def classify_fuzz(text, kind):
     if kind.startswith("internal:AttributeError@base.py:_append_subproc_bang") and "!" in text:
         return "C03-F4"
+    if kind.startswith("internal:TypeError@fstring_rules_llm.py:p_fstring_conversion") and "!" in text:
+        return "C03-F7"
     return None
 
 
@@ -555,7 +559,7 @@ def main(run):
     run.assumptions += [
         "command names are aliases that exist only in the alias table (never bound as Python names)",
         "a case whose explicit ![..] twin is itself a SyntaxError is a generator discard",
-        "'terminates' = Execer.parse returns within %d s (typical cost < 50 ms)" % HANG_S,
+        "'terminates' = Execer.parse returns within %d CPU-seconds (typical cost < 50 ms; the slowest input seen, 60 characters, needs 9 s)" % PARSE_CPU_S,
     ]
 
 
